@@ -11,7 +11,7 @@ import (
 	"github.com/bool64/cache"
 )
 
-const c01mRule = "bursts over MANY keys (2..4200 distinct keys, initially absent or stale, one Get each, all builders parked at the same time), then the burst drains in a generated order down to 1-3 builds still in flight, " +
+const c01mRule = "bursts over MANY keys (2..17000 distinct keys, initially absent or stale, one Get each, all builders parked at the same time), then the burst drains in a generated order down to 1-3 builds still in flight, " +
 	"then 1-3 late Gets (plain or SkipRead) arrive for the keys still building; oracle: per-key in-flight counter never exceeds 1, every Get returns a value built for its own key, no key lock remains at quiescence; " +
 	"non-trivial = at least 100 keys were locked at the same time"
 
@@ -25,7 +25,7 @@ func propManyKeys(c *Case) {
 		variant: c.Pick("variant", nVariants), syncUpdate: c.Bool("SyncUpdate"), syncRead: c.Bool("SyncRead"),
 		backendTTL: time.Hour, failedUpdateTTL: []time.Duration{0, -1}[c.Pick("FailedUpdateTTL", 2)],
 	}
-	n := []int{2, 9, 100, 255, 256, 257, 300, 520, 1030, 2100, 4200}[c.Weighted("keys", 3, 3, 3, 3, 3, 3, 3, 3, 2, 1, 1)]
+	n := []int{2, 9, 100, 255, 256, 257, 300, 520, 1030, 2100, 4200, 17000}[c.Weighted("keys", 6, 6, 6, 6, 6, 6, 6, 6, 4, 2, 2, 3)]
 	survivors := c.Int("survivors", 1, 3)
 	if survivors > n {
 		survivors = n
